@@ -226,6 +226,8 @@ fn in_loop_skeleton(body: &[B]) -> Vec<B>
 struct ArrayStorage
 {
 	name: &'static str,
+	/// the type of the elements and of `x`
+	ty: &'static str,
 	prelude: &'static str,
 	params: &'static str,
 	locals: &'static str,
@@ -240,13 +242,15 @@ struct ArrayStorage
 
 const HOLDER: &str = "struct Holder\n{\n\tpad: i32,\n\tarr: [3]i32,\n\ttail: i32,\n}\n";
 
-const ARRAY_STORAGES: [ArrayStorage; 6] = [
-	ArrayStorage { name: "local array", prelude: "", params: "", locals: "\tvar a: [3]i32 = [10, 20, 30];\n", path: "a[IDX]", len: "|a|", caller_decl: "", arg: "", caller_path: "", guard: "7i32", guard_value: "7" },
-	ArrayStorage { name: "slice pointer parameter", prelude: "", params: "a: &[]i32", locals: "", path: "a[IDX]", len: "|a|", caller_decl: "\tvar cK: [3]i32 = [10, 20, 30];\n", arg: "&cK", caller_path: "cK[IDX]", guard: "7i32", guard_value: "7" },
-	ArrayStorage { name: "pointer to a sized array parameter", prelude: "", params: "a: &[3]i32", locals: "", path: "a[IDX]", len: "|a|", caller_decl: "\tvar cK: [3]i32 = [10, 20, 30];\n", arg: "&cK", caller_path: "cK[IDX]", guard: "7i32", guard_value: "7" },
-	ArrayStorage { name: "array member of a local structure", prelude: HOLDER, params: "", locals: "\tvar s: Holder = Holder { pad: 7, arr: [10, 20, 30], tail: 9 };\n", path: "s.arr[IDX]", len: "|s.arr|", caller_decl: "", arg: "", caller_path: "", guard: "s.pad * 10 + s.tail", guard_value: "79" },
-	ArrayStorage { name: "array member behind a pointer to a structure", prelude: HOLDER, params: "h: &Holder", locals: "", path: "h.arr[IDX]", len: "|h.arr|", caller_decl: "\tvar cK: Holder = Holder { pad: 7, arr: [10, 20, 30], tail: 9 };\n", arg: "&cK", caller_path: "cK.arr[IDX]", guard: "h.pad * 10 + h.tail", guard_value: "79" },
-	ArrayStorage { name: "second row of a local matrix", prelude: "", params: "", locals: "\tvar m: [3][3]i32 = [[1, 2, 3], [10, 20, 30], [4, 5, 6]];\n", path: "m[1][IDX]", len: "|m[1]|", caller_decl: "", arg: "", caller_path: "", guard: "m[0][2] * 10 + m[2][0]", guard_value: "34" },
+const ARRAY_STORAGES: [ArrayStorage; 8] = [
+	ArrayStorage { name: "local array", ty: "i32", prelude: "", params: "", locals: "\tvar a: [3]i32 = [10, 20, 30];\n", path: "a[IDX]", len: "|a|", caller_decl: "", arg: "", caller_path: "", guard: "7i32", guard_value: "7" },
+	ArrayStorage { name: "slice pointer parameter", ty: "i32", prelude: "", params: "a: &[]i32", locals: "", path: "a[IDX]", len: "|a|", caller_decl: "\tvar cK: [3]i32 = [10, 20, 30];\n", arg: "&cK", caller_path: "cK[IDX]", guard: "7i32", guard_value: "7" },
+	ArrayStorage { name: "pointer to a sized array parameter", ty: "i32", prelude: "", params: "a: &[3]i32", locals: "", path: "a[IDX]", len: "|a|", caller_decl: "\tvar cK: [3]i32 = [10, 20, 30];\n", arg: "&cK", caller_path: "cK[IDX]", guard: "7i32", guard_value: "7" },
+	ArrayStorage { name: "array member of a local structure", ty: "i32", prelude: HOLDER, params: "", locals: "\tvar s: Holder = Holder { pad: 7, arr: [10, 20, 30], tail: 9 };\n", path: "s.arr[IDX]", len: "|s.arr|", caller_decl: "", arg: "", caller_path: "", guard: "s.pad * 10 + s.tail", guard_value: "79" },
+	ArrayStorage { name: "array member behind a pointer to a structure", ty: "i32", prelude: HOLDER, params: "h: &Holder", locals: "", path: "h.arr[IDX]", len: "|h.arr|", caller_decl: "\tvar cK: Holder = Holder { pad: 7, arr: [10, 20, 30], tail: 9 };\n", arg: "&cK", caller_path: "cK.arr[IDX]", guard: "h.pad * 10 + h.tail", guard_value: "79" },
+	ArrayStorage { name: "local array of u8", ty: "u8", prelude: "", params: "", locals: "\tvar a: [3]u8 = [10, 20, 30];\n", path: "a[IDX]", len: "|a|", caller_decl: "", arg: "", caller_path: "", guard: "7u8", guard_value: "7" },
+	ArrayStorage { name: "slice pointer parameter of i128", ty: "i128", prelude: "", params: "a: &[]i128", locals: "", path: "a[IDX]", len: "|a|", caller_decl: "\tvar cK: [3]i128 = [10, 20, 30];\n", arg: "&cK", caller_path: "cK[IDX]", guard: "7i128", guard_value: "7" },
+	ArrayStorage { name: "second row of a local matrix", ty: "i32", prelude: "", params: "", locals: "\tvar m: [3][3]i32 = [[1, 2, 3], [10, 20, 30], [4, 5, 6]];\n", path: "m[1][IDX]", len: "|m[1]|", caller_decl: "", arg: "", caller_path: "", guard: "m[0][2] * 10 + m[2][0]", guard_value: "34" },
 ];
 
 fn array_text(a: u8, st: &ArrayStorage) -> String
@@ -322,18 +326,19 @@ fn array_function(k: usize, si: usize, forest: &[B]) -> (String, String)
 	body::render_lines(forest, &|a| array_text(a, st), 1, &mut lines, &mut atom_lines);
 	let p = |idx: usize| st.path.replace("IDX", &idx.to_string());
 	let function = format!(
-		"fn f{k}({}) -> i32\n{{\n\tvar x: i32 = 1;\n\tvar i: usize = 0;\n{}{}\n\tprint!(\"=\", x, \" \", i, \" \", {}, \" \", {}, \" \", {}, \" \", {}, \"\\n\");\n\treturn: x\n}}\n",
+		"fn f{k}({}) -> {ty}\n{{\n\tvar x: {ty} = 1;\n\tvar i: usize = 0;\n{}{}\n\tprint!(\"=\", x, \" \", i, \" \", {}, \" \", {}, \" \", {}, \" \", {}, \"\\n\");\n\treturn: x\n}}\n",
 		st.params,
 		st.locals,
 		lines.join("\n"),
 		p(0),
 		p(1),
 		p(2),
-		st.guard
+		st.guard,
+		ty = st.ty
 	);
 	let kk = k.to_string();
 	let mut call = st.caller_decl.replace('K', &kk);
-	call.push_str(&format!("\tvar r{k}: i32 = f{k}({});\n", st.arg.replace('K', &kk)));
+	call.push_str(&format!("\tvar r{k}: {} = f{k}({});\n", st.ty, st.arg.replace('K', &kk)));
 	if st.caller_path.is_empty()
 	{
 		call.push_str(&format!("\tprint!(r{k}, \"\\n\");\n"));
@@ -1224,7 +1229,13 @@ pub fn work(spec: &Value, w: &mut WorkerCtx)
 					w.result.count("array bodies with label errors (excluded, C04's subject)", 1);
 					continue;
 				}
-				match flow::run_array(&forest, &array_op, [10, 20, 30], 400, 40)
+				let wrap: &dyn Fn(i128) -> i128 = match ARRAY_STORAGES[si].ty
+				{
+					"u8" => &|v| v.rem_euclid(256),
+					"i128" => &|v| v,
+					_ => &|v| v as i32 as i128,
+				};
+				match flow::run_array(&forest, &array_op, [10, 20, 30], wrap, 400, 40)
 				{
 					None =>
 					{
